@@ -553,3 +553,29 @@ fn replay(case: &Value, rec: &mut Rec) {
         _ => rec.inconclusive("replay case is not a C20 case"),
     }
 }
+
+/// fuzz entry: one arbitrary input line through both parsers
+pub fn fuzz_line(s: &str) -> CaseResult {
+    test_parse_command(s).map(|_| ())?;
+    test_parse_address(s)
+}
+
+/// fuzz entry: bytes -> (base, instruction stream) through the disassembler
+pub fn fuzz_disasm(data: &[u8]) -> CaseResult {
+    if data.len() < 2 {
+        return Ok(());
+    }
+    let base = u16::from_le_bytes([data[0], data[1]]);
+    let mut instrs: Vec<Vec<u8>> = Vec::new();
+    let mut i = 2;
+    while i < data.len() && instrs.len() < 64 {
+        let op = data[i];
+        let n = ref_len(op);
+        if i + n > data.len() {
+            break;
+        }
+        instrs.push(data[i..i + n].to_vec());
+        i += n;
+    }
+    test_disasm(base, &instrs)
+}
